@@ -1,7 +1,7 @@
 (* C05 -- property theorems only.  Proofs live in C05/Proofs*.v. *)
 From Coq Require Import NArith List Bool.
 From DV Require Import Base.Outcome Base.Bytes Base.Names Base.PName
-  C05.Schema C05.Gen C05.Model C05.OptModel C05.ProofsA C05.ProofsB C05.ProofsC C05.ProofsD C05.ProofsE C05.ProofsF C05.ProofsG C05.Proofs.
+  C05.Schema C05.Gen C05.Model C05.OptModel C05.SvcModel C05.ProofsA C05.ProofsB C05.ProofsC C05.ProofsD C05.ProofsE C05.ProofsF C05.ProofsG C05.ProofsH C05.Proofs.
 Import ListNotations.
 Local Open Scope N_scope.
 
@@ -198,3 +198,58 @@ Theorem C05_recompose_nameless : forall dec dec' s m pos lim v pre post,
   parse_rdata dec' s (pre ++ compose s v ++ post) (len pre) (len pre + len (compose s v)) = Ok v.
 Proof. exact recompose_nameless. Qed.
 Print Assumptions C05_recompose_nameless.
+
+(* SVCB / HTTPS parameter values, every key: compose then parse gives the value
+   back, the announced value length is the number of octets written *)
+Theorem C05_svcvalue_parse_compose : forall key v pre post,
+  wf_value (svcvalue_schema key) v = true ->
+  parse_rdata flat_dec (svcvalue_schema key)
+    (pre ++ compose (svcvalue_schema key) v ++ post) (len pre)
+    (len pre + len (compose (svcvalue_schema key) v)) = Ok v /\
+  rdlen (svcvalue_schema key) false v = Ok (Some (len (compose (svcvalue_schema key) v))).
+Proof. exact svcvalue_parse_compose. Qed.
+Print Assumptions C05_svcvalue_parse_compose.
+
+(* the typed builder: whatever the push order, the frozen parameters pass
+   SvcParams::check_slice, are in ascending key order, hold exactly the pushed
+   values and iterate as that list; a key pushed twice is refused *)
+Theorem C05_svc_build_accepted : forall pushes b,
+  Forall wf_option pushes -> svc_build pushes = Some b ->
+  rest_check KSvcParams b = None /\
+  exists l, b = opt_frame l /\ ascending 0 l = true /\ (forall x, In x l <-> In x pushes) /\
+            opt_iter (S (length b)) b 0 (len b) [] = Ok l.
+Proof. exact svc_build_accepted. Qed.
+Print Assumptions C05_svc_build_accepted.
+
+Theorem C05_svc_build_duplicate : forall o o', fst o = fst o' -> svc_build [o; o'] = None.
+Proof. exact svc_build_duplicate. Qed.
+Print Assumptions C05_svc_build_duplicate.
+
+(* IPSECKEY gateway names (RFC 4025 2.5: MUST NOT be compressed): with the
+   consumed-length check (T1 flag) an accepted gateway name was read from
+   exactly its uncompressed octets; without it a pointer-only gateway passes *)
+Theorem C05_nc_dec_strict_exact : forall m pos lim n e,
+  pname_nc_dec true m pos lim = Ok (n, e) ->
+  exists p, parse_ref m pos lim = Ok p /\ pn_compressed p = false /\ e - pos = pn_len p.
+Proof. exact nc_dec_strict_exact. Qed.
+Print Assumptions C05_nc_dec_strict_exact.
+
+Theorem C05_ipseckey_pointer_gateway_refuted :
+  Gen.ipseckey_checks_consumed = false ->
+  exists m pos lim v, ipseckey_parse m pos lim = Ok v /\ get m (pos + 3) = Some 192.
+Proof. exact ipseckey_pointer_gateway_refuted. Qed.
+Print Assumptions C05_ipseckey_pointer_gateway_refuted.
+
+Theorem C05_std_cookie_roundtrip : forall v pre post,
+  wf_value std_cookie_schema v = true ->
+  parse_rdata flat_dec std_cookie_schema (pre ++ compose std_cookie_schema v ++ post) (len pre)
+    (len pre + len (compose std_cookie_schema v)) = Ok v /\
+  len (compose std_cookie_schema v) = 16.
+Proof. exact std_cookie_roundtrip. Qed.
+Print Assumptions C05_std_cookie_roundtrip.
+
+(* the IPSECKEY rows are the ones read from the source *)
+Theorem C05_ipseckey_src_agrees :
+  Gen.ipseckey_src = map (fun g => (g, ipseckey_schema g)) [0; 1; 2; 3].
+Proof. exact ipseckey_src_agrees. Qed.
+Print Assumptions C05_ipseckey_src_agrees.
